@@ -3,8 +3,8 @@ INVARIANT AllOK
 VIEW McView
 CHECK_DEADLOCK FALSE
 CONSTANTS
-  Sizes <- ScrollSizes
-  Limits <- LimMix
+  Sizes <- ScrollSizesT
+  Limits <- Lim01
   Fills <- ScrollInitFills
   Alphabet <- ScrollAlphabet
   Resizes <- ScrollResizes
